@@ -1,14 +1,70 @@
 package c12
 
 import (
+	"context"
 	"fmt"
 	"net"
+	"strings"
 	"time"
 
 	"mosn.io/api"
 	v2 "mosn.io/mosn/pkg/config/v2"
 	"mosn.io/mosn/pkg/server"
+	"mosn.io/mosn/pkg/streamfilter"
 )
+
+// A stream filter type of the harness: its only content is a tag, so that the stream filter chain a
+// listener would build for a new stream can be read back (public extension point api.RegisterStream).
+type tagFactory struct{ tag string }
+
+func (f *tagFactory) CreateFilterChain(ctx context.Context, cb api.StreamFilterChainFactoryCallbacks) {
+	cb.AddStreamReceiverFilter(&tagFilter{tag: f.tag}, api.BeforeRoute)
+}
+
+type tagFilter struct{ tag string }
+
+func (*tagFilter) OnDestroy() {}
+func (*tagFilter) OnReceive(ctx context.Context, h api.HeaderMap, b api.IoBuffer, t api.HeaderMap) api.StreamFilterStatus {
+	return api.StreamFilterContinue
+}
+func (*tagFilter) SetReceiveFilterHandler(api.StreamReceiverFilterHandler) {}
+
+func init() {
+	api.RegisterStream("c12_tag", func(conf map[string]interface{}) (api.StreamFilterChainFactory, error) {
+		tag, _ := conf["tag"].(string)
+		return &tagFactory{tag: tag}, nil
+	})
+}
+
+type chainRecorder struct{ tags []string }
+
+func (r *chainRecorder) AddStreamSenderFilter(f api.StreamSenderFilter, p api.SenderFilterPhase) {}
+func (r *chainRecorder) AddStreamReceiverFilter(f api.StreamReceiverFilter, p api.ReceiverFilterPhase) {
+	if tf, ok := f.(*tagFilter); ok {
+		r.tags = append(r.tags, tf.tag)
+	} else {
+		r.tags = append(r.tags, fmt.Sprintf("%T", f))
+	}
+}
+func (r *chainRecorder) AddStreamAccessLog(api.AccessLog) {}
+
+// liveStreamTags builds the stream filter chain the proxy of this listener builds for a new stream.
+func liveStreamTags(listener string) string {
+	f := streamfilter.GetStreamFilterManager().GetStreamFilterFactory(listener)
+	if f == nil {
+		return "<no factory>"
+	}
+	rec := &chainRecorder{}
+	f.CreateFilterChain(context.Background(), rec)
+	return fmt.Sprint(rec.tags)
+}
+
+func modelStreamTags(l *mListener) string {
+	if l.StreamTag == "" {
+		return "[]"
+	}
+	return fmt.Sprint([]string{l.StreamTag})
+}
 
 // Listeners are added, updated and deleted through the listener adapter (the entry point of the
 // debug API and of LDS). They are configured with bind_port=false so that no socket is involved:
@@ -29,6 +85,9 @@ func listenerToV2(name string, l *mListener, withChain bool) *v2.Listener {
 	if l.IdleSec > 0 {
 		ln.ConnectionIdleTimeout = &api.DurationConfig{Duration: time.Duration(l.IdleSec) * time.Second}
 	}
+	if l.StreamTag != "" {
+		ln.StreamFilters = []v2.Filter{{Type: "c12_tag", Config: map[string]interface{}{"tag": l.StreamTag}}}
+	}
 	if withChain {
 		ln.FilterChains = []v2.FilterChain{{FilterChainConfig: v2.FilterChainConfig{Filters: []v2.Filter{{
 			Type:   "proxy",
@@ -46,6 +105,11 @@ func listenerFromV2(ln *v2.Listener) mListener {
 	if ln.ConnectionIdleTimeout != nil {
 		out.IdleSec = int(ln.ConnectionIdleTimeout.Duration / time.Second)
 	}
+	for _, f := range ln.StreamFilters {
+		tag, _ := f.Config["tag"].(string)
+		out.StreamTag += f.Type + ":" + tag
+	}
+	out.StreamTag = strings.TrimPrefix(out.StreamTag, "c12_tag:")
 	if len(ln.FilterChains) == 1 {
 		for _, f := range ln.FilterChains[0].Filters {
 			if f.Type == "proxy" {
@@ -57,7 +121,7 @@ func listenerFromV2(ln *v2.Listener) mListener {
 }
 
 func (l mListener) String() string {
-	return fmt.Sprintf("addr=%s router=%s inspector=%v idle=%ds", l.Addr, l.RouterRef, l.Inspector, l.IdleSec)
+	return fmt.Sprintf("addr=%s router=%s inspector=%v idle=%ds stream_filter=%q", l.Addr, l.RouterRef, l.Inspector, l.IdleSec, l.StreamTag)
 }
 
 func liveAddOrUpdateListener(name string, o *op) error {
@@ -116,6 +180,14 @@ func checkListeners(m *model, n names, d *dumped, last *op, fail failFn, st *cas
 		}
 		if got, want := listenerFromV2(&stored).String(), ml.String(); got != want {
 			fail("listener/dumped-config-differs-from-model:"+op, "listener %q dumped %s, last written %s", name, got, want)
+		}
+		// what new streams of this listener get
+		if got, want := liveStreamTags(name), modelStreamTags(ml); got != want {
+			if last.Kind == "AddOrUpdateListener" && !last.Applied && n.l(last.L) == name && got == modelStreamTags(last.Listener) {
+				fail(sigLnRejected, "the update of listener %q was rejected (%s: %s) and its config and the dump are unchanged, but new streams now get the stream filters %s of the rejected update instead of %s",
+					name, last.Note, last.Err, got, want)
+			}
+			fail("listener/live-stream-filters-differ-from-model:"+op, "listener %q builds stream filters %s for a new stream, last written %s", name, got, want)
 		}
 	}
 }
